@@ -22,7 +22,8 @@ IMPORTS = "From Coq Require Import NArith.\nFrom Ford Require Import Base.Str Ou
 THEOREMS = ["C19_targets_confined", "C19_page_locations_inside", "C19_former_witness_copy_subdir",
             "C19_former_witness_ordered_subpage", "C19_prefix_safe", "C19_prefix_safe_eq",
             "C19_op_local", "C19_copies_are_not_links", "C19_refusal", "C19_refusal_exact", "C19_no_source_deleted",
-            "C19_discovered_sources_kept", "C19_out_clean"]
+            "C19_discovered_sources_kept", "C19_out_excluded", "C19_discovered_sources_kept_cfg",
+            "C19_out_clean"]
 PKG = "<ford>"
 
 
@@ -580,25 +581,29 @@ def regression_scenarios():
 
 def exclusion_check(chk, rng):
     """output_dir below a source directory: the copies FORD leaves in <out>/src must not be read as
-    sources by the next run (exclude_dir holds output_dir)"""
-    sc = {"name": "below-src-twice", "opts": {"output_dir": "./src/doc", "src_dir": ["./src"], "graph": "false",
-                                              "search": "false", "incl_src": "true"},
-          "links": [], "extra": {}, "dirs": [], "refuse": False, "topmeta": "", "submeta": "", "fortran": None,
-          "cli": {}}
-    sbx = Sandbox(rng, sc)
-    try:
-        sbx.build()
-        names = []
-        for _ in range(2):
-            settings, docs, t, err, log = run_ford(sbx)
-            names.append(sorted(str(f.path) for f in docs.project.allfiles) if docs is not None else err)
-        chk.count(("exclusion", "below-src-twice"), nontrivial=True)
-        chk.extra["second_run_sources"] = names[1]
-        if names[0] != names[1]:
-            chk.violation("failing-input", {"what": "a second run reads the output of the first as source files",
-                                            "first": names[0], "second": names[1], "scenario": sc}, True)
-    finally:
-        sbx.close()
+    sources by the next run (exclude_dir holds output_dir) -- named in the project file, and given
+    on the command line only (parse_arguments appends the final output_dir to exclude_dir)"""
+    for name, out, cli in (("below-src-twice", "./src/doc", {}),
+                           ("below-src-twice-cli", "./doc", {"output_dir": "./src/cli_doc"})):
+        sc = {"name": name, "opts": {"output_dir": out, "src_dir": ["./src"], "graph": "false",
+                                     "search": "false", "incl_src": "true"},
+              "links": [], "extra": {}, "dirs": [], "refuse": False, "topmeta": "", "submeta": "",
+              "fortran": None, "cli": cli}
+        sbx = Sandbox(rng, sc)
+        try:
+            sbx.build()
+            names = []
+            for _ in range(2):
+                settings, docs, t, err, log = run_ford(sbx)
+                names.append(sorted(str(f.path) for f in docs.project.allfiles) if docs is not None else err)
+            chk.count(("exclusion", name), nontrivial=True)
+            chk.extra.setdefault("second_run_sources", {})[name] = \
+                [os.path.relpath(x, sbx.sb) for x in names[1]] if isinstance(names[1], list) else names[1]
+            if names[0] != names[1]:
+                chk.violation("failing-input", {"what": "a second run reads the output of the first as source files",
+                                                "first": names[0], "second": names[1], "scenario": sc}, True)
+        finally:
+            sbx.close()
 
 
 def common_defs(cases, pkgfs):
@@ -826,9 +831,11 @@ def subprocess_boxes(chk, cases, ids, boxes):
             o = sbx.sc["opts"]
             real = lambda x: sbx.canon.comps(os.path.realpath(os.path.join(sbx.proj, x)))
             out_text = (sbx.sc.get("cli") or {}).get("output_dir") or o["output_dir"]
+            excl = [real(x) for x in o.get("exclude_dir", [])] + [real(o["output_dir"])]
+            if real(out_text) not in excl:      # parse_arguments appends the final output_dir
+                excl.append(real(out_text))
             sp = (real(out_text), real(o["graph_dir"]) if o.get("graph_dir") else None,
-                  [real(x) for x in o["src_dir"]],
-                  [real(x) for x in o.get("exclude_dir", [])] + [real(o["output_dir"])])
+                  [real(x) for x in o["src_dir"]], excl)
             ids.new_sandbox()
             cases.add(3, sbx, ids, pre, post, sp, refused, [], None,
                       info={"scenario": sbx.sc["name"], "subprocess": True, "rc": rc, "opts": o,
